@@ -2,7 +2,15 @@
 import itertools
 
 KINDS = ["req", "opt", "arr", "map", "oneOf", "anyOf", "allOf", "disc"]
+# further ways a reference can sit inside a schema (used by the random compositions)
+KINDS_EXTRA = ["allOfInline", "nested", "nestedArr"]
+ODD_NAMES = ["org_unit", "staff-member", "commentThread", "x.y", "item2"]
 REF = "#/components/schemas/"
+
+
+def fld(n):
+    import re
+    return re.sub(r"[^a-z0-9]+", "_", n.lower())
 
 
 def graph_schemas(names, edges):
@@ -14,22 +22,28 @@ def graph_schemas(names, edges):
         s = out[a]
         ref = {"$ref": REF + b}
         if k == "req":
-            s["properties"]["r_" + b.lower()] = ref
-            s.setdefault("required", []).append("r_" + b.lower())
+            s["properties"]["r_" + fld(b)] = ref
+            s.setdefault("required", []).append("r_" + fld(b))
         elif k == "opt":
-            s["properties"]["o_" + b.lower()] = ref
+            s["properties"]["o_" + fld(b)] = ref
         elif k == "arr":
-            s["properties"]["a_" + b.lower()] = {"type": "array", "items": ref}
+            s["properties"]["a_" + fld(b)] = {"type": "array", "items": ref}
         elif k == "map":
-            s["properties"]["m_" + b.lower()] = {"type": "object", "additionalProperties": ref}
+            s["properties"]["m_" + fld(b)] = {"type": "object", "additionalProperties": ref}
         elif k in ("oneOf", "anyOf"):
             s.setdefault(k, []).append(ref)
         elif k == "allOf":
             s.setdefault("allOf", []).append(ref)
+        elif k == "allOfInline":
+            s.setdefault("allOf", []).append({"type": "object", "properties": {"x_" + fld(b): ref}})
+        elif k == "nested":
+            s["properties"]["n_" + fld(b)] = {"type": "object", "properties": {"q": ref}}
+        elif k == "nestedArr":
+            s["properties"]["na_" + fld(b)] = {"type": "array", "items": {"type": "object", "properties": {"q": ref}}}
         elif k == "disc":
             s["properties"]["kind"] = {"type": "string"}
             d = s.setdefault("discriminator", {"propertyName": "kind", "mapping": {}})
-            d["mapping"]["t_" + b.lower()] = REF + b
+            d["mapping"]["t_" + fld(b)] = REF + b
             # the child extends the base
             c = out[b]
             if ref != {"$ref": REF + a} or True:
@@ -158,7 +172,7 @@ def has_allof_cycle(names, edges):
     crash the generator (recorded under C12) and are not what C07/C10 quantify over."""
     succ = {n: set() for n in names}
     for a, k, b in edges:
-        if k == "allOf":
+        if k in ("allOf", "allOfInline"):
             succ[a].add(b)
         elif k == "disc":
             succ[b].add(a)
